@@ -19,7 +19,8 @@ theorem C16_single_block_atomic (v : UpdVariant) (e : Env) (c : CState) (r : Req
     (hk : kindOf r = .single) (hl : c.locked = []) :
     advance v e c r .start =
       (let e' : Env := { e with busy := e.busy ++ c.zombies }
-       ({ c with s := (step v e' c.s r).1, epochs := reEpoch c.epochs c.s (step v e' c.s r).1 },
+       ({ c with s := (step v e' c.s r).1, epochs := reEpoch c.epochs c.s (step v e' c.s r).1,
+                 dead := c.dead ++ retired c.epochs c.s (step v e' c.s r).1 },
         .done (step v e' c.s r).2)) := by
   simp only [advance, hk, hl]
   simp
@@ -139,7 +140,8 @@ theorem alone_single (v : UpdVariant) (e : Env) (c : CState) (r : Request)
     (runAlone v e c r).1.s = (step v e c.s r).1 ∧ (runAlone v e c r).2.resp? = some (step v e c.s r).2 ∧
     (runAlone v e c r).1.zombies = [] ∧ (runAlone v e c r).1.locked = [] := by
   have h0 : advance v e c r .start =
-      ({ c with s := (step v e c.s r).1, epochs := reEpoch c.epochs c.s (step v e c.s r).1 }, .done (step v e c.s r).2) := by
+      ({ c with s := (step v e c.s r).1, epochs := reEpoch c.epochs c.s (step v e c.s r).1,
+                dead := c.dead ++ retired c.epochs c.s (step v e c.s r).1 }, .done (step v e c.s r).2) := by
     simp only [advance, hk, hl, hz, env_eta]
     simp
     split <;> rfl
@@ -217,10 +219,10 @@ theorem alone_update (v : UpdVariant) (e : Env) (c : CState) (r : Request) (n : 
         let off : ProxyRec := { p with enabled := false }
         let mid : ProxyRec := { p with enabled := false, listen := inp.listen, upstream := inp.upstream }
         have h2 : advance v e c r (.ready p (c.epoch n) inp) =
-            ({ s := c.s.replace off, epochs := c.epochs, zombies := [], locked := [n] }, .stopped off (c.epoch n) inp) := by
+            ({ s := c.s.replace off, epochs := c.epochs, zombies := [], locked := [n], dead := c.dead }, .stopped off (c.epoch n) inp) := by
           simp [advance, hk, live_same, hf, hz, hl, env_eta, hsplit, off]
-        have h2' : advance v e { s := c.s.replace off, epochs := c.epochs, zombies := [], locked := [n] } r (.stopped off (c.epoch n) inp) =
-            ({ s := c.s.replace mid, epochs := c.epochs, zombies := [], locked := [n] }, .restart mid (c.epoch n) inp) := by
+        have h2' : advance v e { s := c.s.replace off, epochs := c.epochs, zombies := [], locked := [n], dead := c.dead } r (.stopped off (c.epoch n) inp) =
+            ({ s := c.s.replace mid, epochs := c.epochs, zombies := [], locked := [n], dead := c.dead }, .restart mid (c.epoch n) inp) := by
           have : (c.s.replace off).replace mid = c.s.replace mid := replace_replace c.s off mid rfl
           simp [advance, off, mid, this]
         have hmid : mid.name = n := hpn
@@ -238,15 +240,15 @@ theorem alone_update (v : UpdVariant) (e : Env) (c : CState) (r : Request) (n : 
             { name := p.name, listen := inp.listen, upstream := inp.upstream, enabled := false, toxics := p.toxics } <;> rfl
         cases hen : inp.enabled with
         | false =>
-          have h3 : advance v e { s := c.s.replace mid, epochs := c.epochs, zombies := [], locked := [n] } r (.restart mid (c.epoch n) inp) =
-              ({ s := c.s.replace mid, epochs := c.epochs, zombies := [], locked := [] }, .done (Api.ok 200 (.proxy mid))) := by
+          have h3 : advance v e { s := c.s.replace mid, epochs := c.epochs, zombies := [], locked := [n], dead := c.dead } r (.restart mid (c.epoch n) inp) =
+              ({ s := c.s.replace mid, epochs := c.epochs, zombies := [], locked := [], dead := c.dead }, .done (Api.ok 200 (.proxy mid))) := by
             simp [advance, hen, hmid, hz, env_eta]
           simp [runAlone, h0, h1, h2, h2', h3, Phase.resp?, hz, hUpdate, withProxy, hf, hd, hseq, hen]
         | true =>
           cases hst : startProxy e (c.s.replace mid) mid with
           | none =>
-            have h3 : advance v e { s := c.s.replace mid, epochs := c.epochs, zombies := [], locked := [n] } r (.restart mid (c.epoch n) inp) =
-                ({ s := c.s.replace mid, epochs := c.epochs, zombies := [], locked := [] }, .done (errResp .internal)) := by
+            have h3 : advance v e { s := c.s.replace mid, epochs := c.epochs, zombies := [], locked := [n], dead := c.dead } r (.restart mid (c.epoch n) inp) =
+                ({ s := c.s.replace mid, epochs := c.epochs, zombies := [], locked := [], dead := c.dead }, .done (errResp .internal)) := by
               simp [advance, hen, hmid, hz, env_eta, hst]
             simp [runAlone, h0, h1, h2, h2', h3, Phase.resp?, hz, hUpdate, withProxy, hf, hd, hseq, hen, hst]
           | some p2 =>
@@ -259,8 +261,8 @@ theorem alone_update (v : UpdVariant) (e : Env) (c : CState) (r : Request) (n : 
                 · split at hst
                   · simp at hst
                   · simp only [Option.some.injEq] at hst; subst hst; rfl
-            have h3 : advance v e { s := c.s.replace mid, epochs := c.epochs, zombies := [], locked := [n] } r (.restart mid (c.epoch n) inp) =
-                ({ s := (c.s.replace mid).replace p2, epochs := c.epochs, zombies := [], locked := [] }, .done (Api.ok 200 (.proxy p2))) := by
+            have h3 : advance v e { s := c.s.replace mid, epochs := c.epochs, zombies := [], locked := [n], dead := c.dead } r (.restart mid (c.epoch n) inp) =
+                ({ s := (c.s.replace mid).replace p2, epochs := c.epochs, zombies := [], locked := [], dead := c.dead }, .done (Api.ok 200 (.proxy p2))) := by
               simp [advance, hen, hmid, hz, env_eta, hst]
             simp [runAlone, h0, h1, h2, h2', h3, Phase.resp?, hz, hUpdate, withProxy, hf, hd, hseq, hen, hst,
               replace_replace c.s mid p2 hp2.symm]
